@@ -187,3 +187,398 @@ Proof.
   - unfold wf_wmat, wf_rows. repeat constructor; simpl; lia.
   - repeat split; vm_compute; reflexivity.
 Qed.
+
+(** ------------------------------------------------------------------------------------------
+    13. The statement instantiated for the REAL estimator models (Proofs/BipartiteInstances.v).
+
+    Above, [fit_bipartite_eq_block] is about the generic skeleton [Format.fit].  Below, the same
+    statement is proved for the faithful models of the individual entry points built for the other
+    properties, each with its OWN bipartite front end: running the model on the biadjacency matrix B
+    (rectangular, or square with force_bipartite, or with row / column arguments) and obtaining
+    (r, Some c) implies that the same model run on the block adjacency, taken as an ordinary square
+    graph on n_row + n_col nodes with the translated arguments as one vector and no force flag,
+    returns (x, None) with r = firstn n_row x and c = skipn n_row x (the unsuffixed output is r).
+    Each model's own block construction is (or denotes, entry by entry) the block matrix of item 9.
+    Not covered (the models have no separable bipartite front end: they start from the adjacency
+    and the label vector the front end produced): Propagation, DiffusionClassifier, the other
+    classifiers; Louvain / Leiden (known divergence by design with modularity='dugue'). *)
+From SKN Require Base.QMat Model.PageRank Model.Centrality Model.Diffusion Model.Structure Model.Cuts
+     Model.Dendrogram Model.Paris Model.Hierarchy Model.Embedding.
+From SKN Require Import Proofs.BipartiteInstances.
+Set Warnings "-notation-overridden".
+
+(** The block graph as an ordinary square pattern matrix; row source i is node i, column source j
+    is node n_row + j. *)
+Theorem sq_block_def (m : pmat) :
+  sq_block m = {| p_ncol := p_nrow m + p_ncol m; p_rows := block_undirected m |}.
+Proof. exact (BipartiteInstances.sq_block_unfold m). Qed.
+Print Assumptions sq_block_def.
+
+Theorem stack_sources_def (n_row : nat) (source_row source_col : option (list nat)) :
+  stack_sources n_row source_row source_col
+  = match source_row with Some s => s | None => [] end
+    ++ map (fun j => n_row + j) (match source_col with Some s => s | None => [] end).
+Proof. exact (BipartiteInstances.stack_sources_unfold n_row source_row source_col). Qed.
+Print Assumptions stack_sources_def.
+
+(** 13.1 get_distances (Model/Bfs.v, the model C10 is about): distances on B with source /
+    source_row / source_col (and force_bipartite, and transpose) are the distances on the block graph
+    from the sources i and n_row + j, split at n_row. *)
+Theorem distances_bipartite_eq_block (m0 : pmat) (source source_row source_col : option (list nat))
+        (transpose_flag force_bipartite : bool) (r c : list Z) :
+  get_distances m0 source source_row source_col transpose_flag force_bipartite = Ok (r, Some c) ->
+  let m := if transpose_flag then transpose m0 else m0 in
+  let rows := match source with Some s => Some s | None => source_row end in
+  exists x,
+    get_distances (sq_block m) (Some (stack_sources (p_nrow m) rows source_col)) None None false false
+      = Ok (x, None) /\
+    r = firstn (p_nrow m) x /\ c = skipn (p_nrow m) x /\ length x = p_nrow m + p_ncol m.
+Proof.
+  exact (BipartiteInstances.distances_bipartite_eq_block m0 source source_row source_col
+                                                        transpose_flag force_bipartite r c).
+Qed.
+Print Assumptions distances_bipartite_eq_block.
+
+(** The same against the block matrix of item 9 ([bipartite2undirected] of a weighted matrix): same
+    edge set as the block graph of the pattern ([block_pattern]), hence the same distances
+    ([bfs_row_order_irrelevant]). *)
+Theorem distances_bipartite_eq_format_block (b : wmat) (source source_row source_col : option (list nat))
+        (force_bipartite : bool) (r c : list Z) :
+  get_distances (pattern_pmat b) source source_row source_col false force_bipartite = Ok (r, Some c) ->
+  let n_row := length (snd b) in
+  let rows := match source with Some s => Some s | None => source_row end in
+  exists x,
+    get_distances {| p_ncol := fst (bipartite2undirected b);
+                     p_rows := pattern (snd (bipartite2undirected b)) |}
+                  (Some (stack_sources n_row rows source_col)) None None false false
+      = Ok (x, None) /\
+    r = firstn n_row x /\ c = skipn n_row x /\ length x = n_row + fst b.
+Proof.
+  exact (BipartiteInstances.distances_bipartite_eq_format_block b source source_row source_col
+                                                               force_bipartite r c).
+Qed.
+Print Assumptions distances_bipartite_eq_format_block.
+
+(** 13.2 get_shortest_path: the very same DAG (as a list of rows) whenever the bipartite treatment is
+    chosen for B.  [fb_to_force] is the call-site binding of force_bipartite (Gen/Routing.v: true;
+    the transpose flag is not bound by the call site: false, see C10.shortest_path_routing). *)
+Theorem shortest_path_bipartite_eq_block (fb_to_force : bool) (m : pmat)
+        (source source_row source_col : option (list nat)) (force_bipartite : bool) (dag : graph) :
+  match source_row, source_col with None, None => fb_to_force && force_bipartite | _, _ => true end
+  || negb (Nat.eqb (p_nrow m) (p_ncol m)) = true ->
+  get_shortest_path false fb_to_force m source source_row source_col force_bipartite = Ok dag ->
+  let rows := match source with Some s => Some s | None => source_row end in
+  get_shortest_path false fb_to_force (sq_block m)
+                    (Some (stack_sources (p_nrow m) rows source_col)) None None false = Ok dag.
+Proof.
+  exact (BipartiteInstances.shortest_path_bipartite_eq_block fb_to_force m source source_row source_col
+                                                            force_bipartite dag).
+Qed.
+Print Assumptions shortest_path_bipartite_eq_block.
+
+(** Seeds: the estimator models' own get_values / stack_values are Format's (item 10 applies to
+    them), under the obvious translation of their seed arguments. *)
+Theorem pr_vals_def :
+  pr_vals None = VNone /\
+  (forall l, pr_vals (Some (PageRank.SArray l)) = VArr l) /\
+  (forall d, pr_vals (Some (PageRank.SDict d)) = VDict d).
+Proof. exact BipartiteInstances.pr_vals_unfold. Qed.
+Print Assumptions pr_vals_def.
+
+Theorem df_vals_def :
+  df_vals None = VNone /\
+  (forall l, df_vals (Some (Diffusion.SArray l)) = VArr l) /\
+  (forall l, df_vals (Some (Diffusion.SList l)) = VArr l) /\
+  (forall d, df_vals (Some (Diffusion.SDict d)) = VDict d).
+Proof. exact BipartiteInstances.df_vals_unfold. Qed.
+Print Assumptions df_vals_def.
+
+Theorem pagerank_stack_values_is_format (n_row n_col : nat) (vr vc : option PageRank.seedsrc)
+        (default : Q) (s : list Q) :
+  PageRank.stack_values n_row n_col vr vc default = PageRank.Ok s ->
+  stack_values n_row n_col (pr_vals vr) (pr_vals vc) default = Ok s.
+Proof. exact (BipartiteInstances.pr_stack_values_format n_row n_col vr vc default s). Qed.
+Print Assumptions pagerank_stack_values_is_format.
+
+Theorem diffusion_stack_values_is_format (n_row n_col : nat) (vr vc : option Diffusion.seedsrc)
+        (default : Q) (s : list Q) :
+  Diffusion.stack_values n_row n_col vr vc default = Diffusion.Ok s ->
+  stack_values n_row n_col (df_vals vr) (df_vals vc) default = Ok s.
+Proof. exact (BipartiteInstances.df_stack_values_format n_row n_col vr vc default s). Qed.
+Print Assumptions diffusion_stack_values_is_format.
+
+(** The models' own block constructions are literally Format's. *)
+Theorem pagerank_block_is_format (n_col : nat) (rows : list (list (nat * Q))) :
+  PageRank.block_undirected n_col rows = snd (bipartite2undirected (n_col, rows)).
+Proof. exact (BipartiteInstances.pr_block_is_format n_col rows). Qed.
+Print Assumptions pagerank_block_is_format.
+
+Theorem diffusion_block_is_format (m : Diffusion.wmat) :
+  Diffusion.block_undirected m = snd (bipartite2undirected (Diffusion.w_ncol m, Diffusion.w_rows m)).
+Proof. exact (BipartiteInstances.df_block_is_format m). Qed.
+Print Assumptions diffusion_block_is_format.
+
+(** 13.3 PageRank.fit (Model/PageRank.v, the model C11 is about; all six solvers, the answers of
+    bicgstab / ARPACK / argsort being the same oracle arguments on both sides): weights_row /
+    weights_col (or weights) on B = the stacked vector s as [weights] on the block adjacency; both
+    sides normalise it to probabilities ([to_probs]). *)
+Theorem pagerank_bipartite_eq_block (n_col : nat) (rows : PageRank.wgraph) (force_bipartite : bool)
+        (values vrow vcol : option PageRank.seedsrc)
+        (alpha : Q) (n_iter : nat) (tol : Q) (sv : PageRank.solver) (oracle : list Q) (order : list nat)
+        (r c : list Q) :
+  match vrow, vcol with None, None => force_bipartite | _, _ => true end
+  || negb (Nat.eqb (length rows) n_col) = true ->
+  PageRank.pagerank_fit n_col rows force_bipartite values vrow vcol alpha n_iter tol sv oracle order
+    = PageRank.Ok (Some (r, c)) ->
+  exists s x,
+    match values with
+    | None => PageRank.stack_values (length rows) n_col vrow vcol 0%Q
+    | Some _ => PageRank.stack_values (length rows) n_col values None 0%Q
+    end = PageRank.Ok s /\
+    match values with
+    | None => stack_values (length rows) n_col (pr_vals vrow) (pr_vals vcol) 0%Q
+    | Some _ => stack_values (length rows) n_col (pr_vals values) VNone 0%Q
+    end = Ok s /\
+    PageRank.pagerank_fit (length rows + n_col) (snd (bipartite2undirected (n_col, rows))) false
+                          (Some (PageRank.SArray s)) None None alpha n_iter tol sv oracle order
+      = PageRank.Ok (Some (x, [])) /\
+    r = firstn (length rows) x /\ c = skipn (length rows) x.
+Proof.
+  exact (BipartiteInstances.pagerank_bipartite_eq_block n_col rows force_bipartite values vrow vcol
+                                                       alpha n_iter tol sv oracle order r c).
+Qed.
+Print Assumptions pagerank_bipartite_eq_block.
+
+(** 13.4 Diffusion.fit and Dirichlet.fit (Model/Diffusion.v, the model C12 is about): values_row /
+    values_col (default -1 = "not a seed") on B = the stacked vector on the block adjacency. *)
+Theorem diffusion_bipartite_eq_block (n_iter : nat) (alpha : Q) (m : Diffusion.wmat)
+        (values vrow vcol : option Diffusion.seedsrc) (init : option Q) (force_bipartite : bool)
+        (v r c : list Q) :
+  Diffusion.diffusion_fit n_iter alpha m values vrow vcol init force_bipartite
+    = Diffusion.Ok (v, Some (r, c)) ->
+  exists s x,
+    match values with
+    | None => Diffusion.stack_values (Diffusion.w_nrow m) (Diffusion.w_ncol m) vrow vcol (-1)%Q
+    | Some _ => Diffusion.stack_values (Diffusion.w_nrow m) (Diffusion.w_ncol m) values None (-1)%Q
+    end = Diffusion.Ok s /\
+    match values with
+    | None => stack_values (Diffusion.w_nrow m) (Diffusion.w_ncol m) (df_vals vrow) (df_vals vcol) (-1)%Q
+    | Some _ => stack_values (Diffusion.w_nrow m) (Diffusion.w_ncol m) (df_vals values) VNone (-1)%Q
+    end = Ok s /\
+    Diffusion.diffusion_fit n_iter alpha
+      {| Diffusion.w_ncol := Diffusion.w_nrow m + Diffusion.w_ncol m;
+         Diffusion.w_rows := Diffusion.block_undirected m |}
+      (Some (Diffusion.SArray s)) None None init false
+      = Diffusion.Ok (x, None) /\
+    v = r /\ r = firstn (Diffusion.w_nrow m) x /\ c = skipn (Diffusion.w_nrow m) x.
+Proof.
+  exact (BipartiteInstances.diffusion_bipartite_eq_block n_iter alpha m values vrow vcol init
+                                                        force_bipartite v r c).
+Qed.
+Print Assumptions diffusion_bipartite_eq_block.
+
+Theorem dirichlet_bipartite_eq_block (n_iter : nat) (m : Diffusion.wmat)
+        (values vrow vcol : option Diffusion.seedsrc) (init : option Q) (force_bipartite : bool)
+        (v r c : list Q) :
+  Diffusion.dirichlet_fit n_iter m values vrow vcol init force_bipartite
+    = Diffusion.Ok (v, Some (r, c)) ->
+  exists s x,
+    match values with
+    | None => Diffusion.stack_values (Diffusion.w_nrow m) (Diffusion.w_ncol m) vrow vcol (-1)%Q
+    | Some _ => Diffusion.stack_values (Diffusion.w_nrow m) (Diffusion.w_ncol m) values None (-1)%Q
+    end = Diffusion.Ok s /\
+    match values with
+    | None => stack_values (Diffusion.w_nrow m) (Diffusion.w_ncol m) (df_vals vrow) (df_vals vcol) (-1)%Q
+    | Some _ => stack_values (Diffusion.w_nrow m) (Diffusion.w_ncol m) (df_vals values) VNone (-1)%Q
+    end = Ok s /\
+    Diffusion.dirichlet_fit n_iter
+      {| Diffusion.w_ncol := Diffusion.w_nrow m + Diffusion.w_ncol m;
+         Diffusion.w_rows := Diffusion.block_undirected m |}
+      (Some (Diffusion.SArray s)) None None init false
+      = Diffusion.Ok (x, None) /\
+    v = r /\ r = firstn (Diffusion.w_nrow m) x /\ c = skipn (Diffusion.w_nrow m) x.
+Proof.
+  exact (BipartiteInstances.dirichlet_bipartite_eq_block n_iter m values vrow vcol init
+                                                        force_bipartite v r c).
+Qed.
+Print Assumptions dirichlet_bipartite_eq_block.
+
+(** 13.5 Katz.fit.  Model/Centrality.v models the core of Katz ([katz]); the four lines of katz.py
+    around it (get_adjacency with its defaults, core, _split_vars) are [katz_fit], over Format's
+    get_adjacency. *)
+Theorem katz_fit_def (m : wmat) (alpha : Q) (K : nat) :
+  katz_fit m alpha K =
+  let scores := Centrality.katz (snd (fst (get_adjacency m true false false))) alpha K in
+  if snd (get_adjacency m true false false)
+  then (firstn (length (snd m)) scores, Some (skipn (length (snd m)) scores))
+  else (scores, None).
+Proof. exact (BipartiteInstances.katz_fit_unfold m alpha K). Qed.
+Print Assumptions katz_fit_def.
+
+Theorem katz_bipartite_eq_block (b : wmat) (alpha : Q) (K : nat) (r c : list Q) :
+  katz_fit b alpha K = (r, Some c) ->
+  let x := Centrality.katz (snd (bipartite2undirected b)) alpha K in
+  katz_fit (bipartite2undirected b) alpha K = (x, None) /\
+  r = firstn (length (snd b)) x /\ c = skipn (length (snd b)) x.
+Proof. exact (BipartiteInstances.katz_bipartite_eq_block b alpha K r c). Qed.
+Print Assumptions katz_bipartite_eq_block.
+
+(** 13.6 get_connected_components / is_connected (Model/Structure.v, the model C09 is about; SciPy's
+    connected_components is the oracle [comp]): with the bipartite treatment the oracle is asked
+    about the block graph, the very graph it is asked about when the block graph is passed as an
+    ordinary square matrix; the labels (rows first, not split by these functions) and the verdict are
+    the same. *)
+Theorem components_bipartite_eq_block (m : pmat) (fb : bool) :
+  snd (Structure.get_adjacency m fb) = true ->
+  Structure.cc_adjacency m fb = block_undirected m /\
+  Structure.get_adjacency (sq_block m) false = (block_undirected m, false) /\
+  (forall comp, Structure.get_connected_components (sq_block m) false comp
+                = Structure.get_connected_components m fb comp) /\
+  (forall comp, Structure.is_connected (sq_block m) false comp = Structure.is_connected m fb comp) /\
+  (forall strong comp,
+      Structure.components_contract (Structure.cc_adjacency (sq_block m) false) strong comp <->
+      Structure.components_contract (Structure.cc_adjacency m fb) strong comp).
+Proof. exact (BipartiteInstances.components_bipartite_eq_block m fb). Qed.
+Print Assumptions components_bipartite_eq_block.
+
+(** get_largest_connected_component: the same nodes are selected (column j under its block number
+    n_row + j), and the sub-matrix selected on the block graph is the block graph of the sub-matrix
+    selected on B (same rows as sets: BFS and get_dag cannot tell them apart). *)
+Theorem largest_component_bipartite_index (m : pmat) (fb : bool) (comp : list nat)
+        (out : pmat) (index : list nat) :
+  snd (Structure.get_adjacency m fb) = true ->
+  length comp = p_nrow m + p_ncol m ->
+  Structure.get_largest_connected_component m fb comp = Ok (out, index) ->
+  exists index_row index_col,
+    index = index_row ++ index_col /\
+    out = Structure.submatrix m index_row index_col /\
+    let index' := index_row ++ map (fun j => p_nrow m + j) index_col in
+    Structure.get_largest_connected_component (sq_block m) false comp
+    = Ok (Structure.submatrix (sq_block m) index' index', index').
+Proof. exact (BipartiteInstances.largest_component_bipartite_index m fb comp out index). Qed.
+Print Assumptions largest_component_bipartite_index.
+
+Theorem largest_component_bipartite_matrix (m : pmat) (index_row index_col : list nat) :
+  (forall i, In i index_row -> i < p_nrow m) ->
+  (forall j, In j index_col -> j < p_ncol m) ->
+  let index' := index_row ++ map (fun j => p_nrow m + j) index_col in
+  length (p_rows (Structure.submatrix (sq_block m) index' index'))
+  = length (block_undirected (Structure.submatrix m index_row index_col)) /\
+  forall u v, In v (row (p_rows (Structure.submatrix (sq_block m) index' index')) u) <->
+              In v (row (block_undirected (Structure.submatrix m index_row index_col)) u).
+Proof. exact (BipartiteInstances.largest_component_bipartite_matrix m index_row index_col). Qed.
+Print Assumptions largest_component_bipartite_matrix.
+
+(** 13.7 Paris.fit on a biadjacency matrix (Model/Paris.v + Model/Hierarchy.v, the models C07 is
+    about): dendrogram_full_ of B is dendrogram_ of the block adjacency (same merges, same margin and
+    tie counters), dendrogram_row_ / dendrogram_col_ are its split_dendrogram.  Paris's own block
+    construction (COO triples) denotes [[0, B], [B^T, 0]] with rows first, in Paris's own entry
+    function; and, for B given as CSR rows, the same matrix as [bipartite2undirected]. *)
+Theorem paris_bipartite_eq_block (R : Paris.rounding) (hinf : Q) (degree reorder : bool) (n1 n2 : nat)
+        (B : Paris.entries) (D Dr Dc : Dendrogram.dendrogram) :
+  Paris.paris_fit_bipartite R hinf degree reorder n1 n2 B = Some (Cuts.Ok (D, Dr, Dc)) ->
+  exists margin ties,
+    Paris.paris_fit R hinf degree reorder (n1 + n2) (Paris.biadj_block n1 B)
+      = Some (Cuts.Ok (D, margin, ties)) /\
+    Hierarchy.split_dendrogram D n1 n2 = Cuts.Ok (Dr, Dc).
+Proof. exact (BipartiteInstances.paris_bipartite_eq_block R hinf degree reorder n1 n2 B D Dr Dc). Qed.
+Print Assumptions paris_bipartite_eq_block.
+
+Theorem paris_block_denotation (n1 : nat) (B : Paris.entries) :
+  (forall e, In e B -> Paris.e_i e < n1) ->
+  (forall i j, i < n1 -> Paris.entry (Paris.biadj_block n1 B) i (n1 + j) = Paris.entry B i j) /\
+  (forall i j, i < n1 -> Paris.entry (Paris.biadj_block n1 B) (n1 + j) i = Paris.entry B i j) /\
+  (forall i i', i < n1 -> i' < n1 -> Paris.entry (Paris.biadj_block n1 B) i i' = 0%Q) /\
+  (forall j j', Paris.entry (Paris.biadj_block n1 B) (n1 + j) (n1 + j') = 0%Q).
+Proof. exact (BipartiteInstances.paris_block_denotation n1 B). Qed.
+Print Assumptions paris_block_denotation.
+
+Theorem coo_of_def (rows : wrows) :
+  coo_of rows
+  = flat_map (fun i => map (fun e : nat * Q => (i, fst e, snd e)) (nth i rows [])) (seq 0 (length rows)).
+Proof. exact (BipartiteInstances.coo_of_unfold rows). Qed.
+Print Assumptions coo_of_def.
+
+Theorem paris_block_is_format_block (b : wmat) (u v : nat) :
+  u < length (snd b) + fst b -> v < length (snd b) + fst b ->
+  (Paris.entry (Paris.biadj_block (length (snd b)) (coo_of (snd b))) u v
+   == entry (snd (bipartite2undirected b)) u v)%Q.
+Proof. exact (BipartiteInstances.paris_block_is_format_block b u v). Qed.
+Print Assumptions paris_block_is_format_block.
+
+(** 13.8 Spectral.fit's front end (Model/Embedding.v, dense matrices; the model C13 is about):
+    Embedding's block construction denotes the block matrix, is symmetric, and is left alone by
+    get_adjacency (allow_directed = False) when handed back as an ordinary graph; the eigensolver
+    wrapper sees the same matrix on both sides, and _split_vars cuts the embedding at n_row. *)
+Theorem spectral_block_denotation (nrow ncol : nat) (B : list (list Q)) :
+  QMat.wf_mat nrow ncol B ->
+  let A := Embedding.block_undirected nrow ncol B in
+  QMat.wf_mat (nrow + ncol) (nrow + ncol) A /\
+  (forall i j, i < nrow -> j < ncol -> QMat.mget A i (nrow + j) = QMat.mget B i j) /\
+  (forall i j, i < nrow -> j < ncol -> QMat.mget A (nrow + j) i = QMat.mget B i j) /\
+  (forall i i', i < nrow -> i' < nrow -> QMat.mget A i i' = 0%Q) /\
+  (forall j j', j < ncol -> j' < ncol -> QMat.mget A (nrow + j) (nrow + j') = 0%Q).
+Proof. exact (BipartiteInstances.emb_block_entries nrow ncol B). Qed.
+Print Assumptions spectral_block_denotation.
+
+Theorem spectral_front_end_eq_block (allow_directed force_bipartite : bool) (nrow ncol : nat)
+        (B : list (list Q)) :
+  QMat.wf_mat nrow ncol B ->
+  snd (Embedding.get_adjacency allow_directed force_bipartite nrow ncol B) = true ->
+  let A := Embedding.block_undirected nrow ncol B in
+  fst (Embedding.get_adjacency allow_directed force_bipartite nrow ncol B) = A /\
+  Embedding.get_adjacency allow_directed false (nrow + ncol) (nrow + ncol) A = (A, false) /\
+  (forall sqrt_o norm_o rw normalized reg sv sV argsort evals evecs emb,
+      Embedding.spectral_fit sqrt_o norm_o rw normalized
+        (fst (Embedding.get_adjacency allow_directed force_bipartite nrow ncol B)) reg sv sV argsort
+        = (evals, evecs, emb) ->
+      Embedding.spectral_fit sqrt_o norm_o rw normalized
+        (fst (Embedding.get_adjacency allow_directed false (nrow + ncol) (nrow + ncol) A)) reg sv sV argsort
+        = (evals, evecs, emb) /\
+      Embedding.split_vars nrow emb = (firstn nrow emb, skipn nrow emb)).
+Proof.
+  exact (BipartiteInstances.spectral_front_end_eq_block allow_directed force_bipartite nrow ncol B).
+Qed.
+Print Assumptions spectral_front_end_eq_block.
+
+(** Non-vacuity of the instances: a 2x3 biadjacency matrix with a row and a column argument, and a
+    square one with force_bipartite; both sides computed by the models. *)
+Example c03_instances_nonvacuous :
+  let B : pmat := {| p_ncol := 3; p_rows := [[1]; [0; 2]] |} in
+  let S : pmat := {| p_ncol := 2; p_rows := [[1]; [0]] |} in
+  let W : list (list (nat * Q)) := [[(1, 2%Q)]; [(0, 3%Q); (2, 1%Q)]] in
+  let M : Diffusion.wmat := {| Diffusion.w_ncol := 3; Diffusion.w_rows := W |} in
+  let MB : Diffusion.wmat := {| Diffusion.w_ncol := 5; Diffusion.w_rows := Diffusion.block_undirected M |} in
+  get_distances B None (Some [0]) (Some [2]) false false = Ok ([0; 1]%Z, Some [2; 1; 0]%Z) /\
+  stack_sources 2 (Some [0]) (Some [2]) = [0; 4] /\
+  get_distances (sq_block B) (Some [0; 4]) None None false false = Ok ([0; 1; 2; 1; 0]%Z, None) /\
+  get_distances S (Some [0]) None None false true = Ok ([0; -1]%Z, Some [-1; 1]%Z) /\
+  get_distances (sq_block S) (Some [0]) None None false false = Ok ([0; -1; -1; 1]%Z, None) /\
+  get_shortest_path false true B None (Some [0]) (Some [2]) false = Ok [[3]; [2]; []; []; [1]] /\
+  get_shortest_path false true (sq_block B) (Some [0; 4]) None None false = Ok [[3]; [2]; []; []; [1]] /\
+  PageRank.pagerank_fit 3 W false None (Some (PageRank.SDict [(1, 1%Q)])) (Some (PageRank.SArray [0; 0; 2]%Q))
+                        (85 # 100)%Q 3 0%Q PageRank.Piteration [] []
+  = PageRank.Ok (Some ([0; 13933 # 24000]%Q, [7667 # 32000; 0; 17267 # 96000]%Q)) /\
+  PageRank.pagerank_fit 5 (snd (bipartite2undirected (3, W))) false (Some (PageRank.SArray [0; 1; 0; 0; 2]%Q))
+                        None None (85 # 100)%Q 3 0%Q PageRank.Piteration [] []
+  = PageRank.Ok (Some ([0; 13933 # 24000; 7667 # 32000; 0; 17267 # 96000]%Q, [])) /\
+  Diffusion.dirichlet_fit 2 M None (Some (Diffusion.SDict [(1, 1%Q)])) (Some (Diffusion.SArray [-1; -1; 0]%Q))
+                          None false
+  = Diffusion.Ok ([1 # 2; 1]%Q, Some ([1 # 2; 1]%Q, [1; 1 # 2; 0]%Q)) /\
+  Diffusion.dirichlet_fit 2 MB (Some (Diffusion.SArray [-1; 1; -1; -1; 0]%Q)) None None None false
+  = Diffusion.Ok ([1 # 2; 1; 1; 1 # 2; 0]%Q, None) /\
+  Diffusion.diffusion_fit 2 (1 # 2)%Q M None (Some (Diffusion.SDict [(1, 1%Q)]))
+                          (Some (Diffusion.SArray [-1; -1; 0]%Q)) None false
+  = Diffusion.Ok ([1 # 2; 11 # 16]%Q, Some ([1 # 2; 11 # 16]%Q, [23 # 32; 1 # 2; 19 # 32]%Q)) /\
+  Diffusion.diffusion_fit 2 (1 # 2)%Q MB (Some (Diffusion.SArray [-1; 1; -1; -1; 0]%Q)) None None None false
+  = Diffusion.Ok ([1 # 2; 11 # 16; 23 # 32; 1 # 2; 19 # 32]%Q, None) /\
+  katz_fit (3, W) (1 # 2)%Q 3 = ([7 # 8; 2]%Q, Some [5 # 4; 7 # 8; 5 # 4]%Q) /\
+  katz_fit (bipartite2undirected (3, W)) (1 # 2)%Q 3 = ([7 # 8; 2; 5 # 4; 7 # 8; 5 # 4]%Q, None) /\
+  Structure.get_largest_connected_component B false [0; 0; 0; 0; 0]
+  = Ok ({| p_ncol := 3; p_rows := [[1]; [0; 2]] |}, [0; 1; 0; 1; 2]) /\
+  Structure.get_largest_connected_component (sq_block B) false [0; 0; 0; 0; 0]
+  = Ok ({| p_ncol := 5; p_rows := [[3]; [2; 4]; [1]; [0]; [1]] |}, [0; 1; 2; 3; 4]) /\
+  Paris.paris_fit_bipartite Paris.exact 100%Q true true 2 3 (coo_of W)
+  = Some (Cuts.Ok ([(3, 0, (1 # 6)%Q, 2); (2, 1, (1 # 3)%Q, 2); (6, 4, (7 # 12)%Q, 3); (7, 5, 100%Q, 5)],
+                   [(1, 0, 100%Q, 2)], [(0, 2, (7 # 12)%Q, 2); (3, 1, 100%Q, 3)])).
+Proof. cbv zeta. repeat split; vm_compute; reflexivity. Qed.
